@@ -4,7 +4,9 @@ S=/verif/seeded/$1; shift
 cd /repo && git status --short | grep -v '^??' && { echo "/repo dirty"; exit 2; }
 git -C /repo apply "$S/patch.diff" || { echo "patch does not apply"; exit 2; }
 cd /verif
+rm -rf /verif/.build/evidence_backup; cp -r /verif/evidence /verif/.build/evidence_backup   # evidence written under a seeded change is never kept
 for c in "$@"; do
   echo "== $c"; timeout 1500 ./check $c quick 2>/dev/null | grep -E "VIOLATION|KNOWN" -A1 | head -6; echo "rc=${PIPESTATUS[0]}"
 done
 git -C /repo checkout -- .
+rm -rf /verif/evidence; mv /verif/.build/evidence_backup /verif/evidence
